@@ -846,6 +846,101 @@ fn run_val(text: &str) -> String {
     parts.join(" ")
 }
 
+
+// ---- ERRSHOW: every error variant the public API can construct, formatted (the same list, in the same order, is in driver.ml) ----
+fn errshow_list() -> Vec<E> {
+    use EvalexprError::*;
+    let vals: Vec<V> = vec![
+        Value::Int(-3),
+        Value::Float(2.5),
+        Value::String("a\"b".into()),
+        Value::Boolean(true),
+        Value::Empty,
+        Value::Tuple(vec![Value::Int(1), Value::Tuple(vec![]), Value::String("x".into())]),
+        Value::Float(f64::NAN),
+        Value::Float(-0.0),
+        Value::Int(i64::MIN),
+    ];
+    let strs: Vec<String> = vec!["".into(), "x".into(), "a\"b\\c".into(), "ä\n\t".into(), "\u{7f}\u{1}é".into()];
+    let mut out: Vec<E> = vec![];
+    for (e, a) in [(2usize, 0usize), (0, 1), (1, 2), (usize::MAX, 3)] {
+        out.push(WrongOperatorArgumentAmount { expected: e, actual: a });
+    }
+    for (lo, hi, a) in [(1usize, 1usize, 0usize), (2, 3, 1), (0, usize::MAX, 5), (1, usize::MAX, 0), (3, 1, 2)] {
+        out.push(WrongFunctionArgumentAmount { expected: lo..=hi, actual: a });
+    }
+    for v in &vals {
+        out.push(ExpectedString { actual: v.clone() });
+        out.push(ExpectedInt { actual: v.clone() });
+        out.push(ExpectedFloat { actual: v.clone() });
+        out.push(ExpectedNumber { actual: v.clone() });
+        out.push(ExpectedNumberOrString { actual: v.clone() });
+        out.push(ExpectedBoolean { actual: v.clone() });
+        out.push(ExpectedTuple { actual: v.clone() });
+        out.push(ExpectedEmpty { actual: v.clone() });
+        out.push(ExpectedFixedLengthTuple { expected_length: 2, actual: v.clone() });
+        out.push(ExpectedFixedLengthTuple { expected_length: usize::MAX, actual: v.clone() });
+        out.push(ExpectedRangedLengthTuple { expected_length: 1..=3, actual: v.clone() });
+        out.push(NegationError { argument: v.clone() });
+    }
+    out.push(AppendedToLeafNode);
+    out.push(PrecedenceViolation);
+    for s in &strs {
+        out.push(VariableIdentifierNotFound(s.clone()));
+        out.push(FunctionIdentifierNotFound(s.clone()));
+        out.push(IllegalEscapeSequence(s.clone()));
+        out.push(CustomMessage(s.clone()));
+    }
+    for v in &vals[..3] {
+        out.push(TypeError { expected: vec![ValueType::String, ValueType::Int], actual: v.clone() });
+    }
+    out.push(TypeError { expected: vec![], actual: Value::Empty });
+    out.push(TypeError {
+        expected: vec![ValueType::String, ValueType::Float, ValueType::Int, ValueType::Boolean, ValueType::Tuple, ValueType::Empty],
+        actual: Value::Int(0),
+    });
+    out.push(WrongTypeCombination { operator: Operator::Add, actual: vec![ValueType::Int, ValueType::String] });
+    out.push(WrongTypeCombination { operator: Operator::Lt, actual: vec![ValueType::Boolean, ValueType::Tuple] });
+    out.push(WrongTypeCombination { operator: Operator::Mod, actual: vec![] });
+    out.push(WrongTypeCombination { operator: Operator::Exp, actual: vec![ValueType::Empty] });
+    out.push(WrongTypeCombination { operator: Operator::Neg, actual: vec![ValueType::Float, ValueType::Float, ValueType::Float] });
+    out.push(UnmatchedLBrace);
+    out.push(UnmatchedRBrace);
+    out.push(UnmatchedDoubleQuote);
+    out.push(MissingOperatorOutsideOfBrace);
+    out.push(ContextNotMutable);
+    out.push(BuiltinFunctionsCannotBeEnabled);
+    out.push(BuiltinFunctionsCannotBeDisabled);
+    out.push(OutOfBoundsAccess);
+    for (a, b) in [(0usize, 1usize), (8, 0), (6, 7)] {
+        out.push(AdditionError { augend: vals[a].clone(), addend: vals[b].clone() });
+        out.push(SubtractionError { minuend: vals[a].clone(), subtrahend: vals[b].clone() });
+        out.push(MultiplicationError { multiplicand: vals[a].clone(), multiplier: vals[b].clone() });
+        out.push(DivisionError { dividend: vals[a].clone(), divisor: vals[b].clone() });
+        out.push(ModulationError { dividend: vals[a].clone(), divisor: vals[b].clone() });
+    }
+    for n in [0usize, 5, usize::MAX] {
+        out.push(IntFromUsize { usize_int: n });
+    }
+    for i in [-1i64, i64::MIN, 7] {
+        out.push(IntIntoUsize { int: i });
+    }
+    out
+}
+
+fn run_errshow(k: &str) -> String {
+    let k: usize = k.parse().unwrap();
+    let l = errshow_list();
+    match l.get(k) {
+        None => "NA".into(),
+        Some(e) => {
+            std::hint::black_box(format!("{:?}", e));
+            std::hint::black_box(e.clone());
+            format!("E:{}", hex(format!("{}", e)))
+        },
+    }
+}
+
 // Display of the tree and Display/Debug of the evaluation result, as hex (the formatting code is modelled too)
 fn run_show(src: &str) -> String {
     let mut ctx = Ctx::new();
@@ -868,6 +963,7 @@ fn run_case(line: &str) -> String {
     let f: Vec<&str> = line.split('\t').collect();
     let id = f[0];
     let body = match f[1] {
+        "ERRSHOW" => run_errshow(f[2]),
         "TOK" => {
             #[cfg(feature = "hooks")]
             {
